@@ -169,6 +169,13 @@ func Begin(property, part, rule string) *R {
 	r.res = Result{Property: property, Part: part, Tier: Tier(), Seed: Seed(), Shard: fmt.Sprintf("%d/%d", i, n),
 		Exhaustive: true, Extra: map[string]interface{}{}, Rule: rule}
 	r.out = os.Getenv("VX_OUT")
+	if os.Getenv("VX_W32") != "" {
+		// a part registered for the 32-bit word size must really be such a binary
+		if strconv.IntSize != 32 {
+			panic("vx: part registered for a 32-bit target runs in a binary with " + strconv.Itoa(strconv.IntSize) + "-bit int")
+		}
+		r.res.Extra["word_size"] = "int, uint and big.Word have 32 bits (GOARCH=386 binary run natively)"
+	}
 	if d := os.Getenv("VX_DEADLINE_S"); d != "" {
 		s, _ := strconv.ParseFloat(d, 64)
 		if s > 0 {
